@@ -17,9 +17,17 @@
                                       `Lemmas/C10Doc*.lean` whose offset relation only has to survive shifts INSIDE
                                       a line) relates the two block trees by `b = a + #LF before a`, for every
                                       range end point and every value of a per-line table.
-  The two hypotheses about ranges (`hin`, `hanch`) and `hix` are checked by evaluation on the examples;
-  the OPEN blocks at the end of parts 2 and 3 name the missing lemmas (non-emptiness of block ranges,
-  the inline half of C05, exactness of the inline parser in its table).
+  The two hypotheses about ranges (`hin`, `hanch`) and `hix` are checked by evaluation on the examples of
+  parts 2 and 3, and DISCHARGED in part 4 for every document in which no tab is split:
+      doc_final_newline_invariant_sp_full   sourcepos on, src does not end with LF / CR, `hsmall` (i32 bound),
+                                            `hpara` (paragraph rule), `hmk` (single-byte emphasis markers),
+                                            `NoSplitTab cfg src`  →  renderDoc x cfg (src ++ "\n") = renderDoc x cfg src
+      doc_crlf_invariant_sp_full            the same + '\r' ∉ src + the inline pass does not panic on src
+                                                               →  renderDoc x cfg (lfToCrlf src) = renderDoc x cfg src
+      …_tabFree                             with `'\t' ∉ src` in place of `NoSplitTab`
+      doc_starts_on_bytes                   every attribute-rendering node starts at a byte that is not a LF
+  (ingredients: `Block.parseBlocks_anchored`, `Block.LX.Y.parseBlocks_crlf_strict`, `C10SP.parseInline_exact`,
+  `doc_placeholder_segs` / `tr_shift`, `doc_ranges_ok` of Props/C05Rest.lean).
 
   What decides (found with `#eval` on the model, then proved as the lemmas of
   `Lemmas/C10SourceposPos.lean`): `get_position(o)` is the state of a fold over the characters that start
@@ -41,113 +49,15 @@
   HTML is invariant although the TREES (`data-sourcepos` entries of `node.attrs`) are not: witnesses
   at the end of part 2.
 -/
-import MdIt.Lemmas.C10SourceposTree
-import MdIt.Lemmas.C10SourceposSim
-import MdIt.Props.DocTotal
+import MdIt.Lemmas.C10SourceposDoc
+import MdIt.Lemmas.C10SpFullFinal
+import MdIt.Lemmas.C10SpFullInline
 
 namespace MdIt.Pipeline
 open MdIt
 open MdIt.Block.LE (FRel BRes BlocksRel NRel NRelL KRel MRel RgRel)
 open MdIt.Lines (lfToCrlf lfToCr)
 open MdIt.SourceMap (runSt mkMarks)
-
-/-! # Part 1: two sources whose block trees agree below the root -/
-
-mutual
-theorem allN_spPure (p : Node → Bool) (hp : ∀ k r a a' cs cs', p ⟨k, r, a, cs⟩ = p ⟨k, r, a', cs'⟩)
-    (src : List Char) (t : Node) : allN p (spPure src t) = allN p t := by
-  match t with
-  | ⟨k, r, a, cs⟩ =>
-    simp only [spPure, allN, allNList_spPure p hp src cs]
-    rw [hp k r _ a _ cs]
-theorem allNList_spPure (p : Node → Bool) (hp : ∀ k r a a' cs cs', p ⟨k, r, a, cs⟩ = p ⟨k, r, a', cs'⟩)
-    (src : List Char) (cs : List Node) : allNList p (spPureList src cs) = allNList p cs := by
-  match cs with
-  | [] => rfl
-  | c :: r => simp only [spPureList, allNList, allN_spPure p hp src c, allNList_spPure p hp src r]
-end
-
-theorem rendered_attrs (q : Nat × Nat → Bool) (k : Kind) (r : Option (Nat × Nat))
-    (a a' : List (List Char × List Char)) (cs cs' : List Node) :
-    rendered q ⟨k, r, a, cs⟩ = rendered q ⟨k, r, a', cs'⟩ := rfl
-
-mutual
-theorem allN_true (t : Node) : allN (rendered fun _ => true) t = true := by
-  match t with
-  | ⟨k, r, a, cs⟩ =>
-    simp only [allN, allNList_true cs, Bool.and_true, rendered]
-    cases r <;> simp
-theorem allNList_true (cs : List Node) : allNList (rendered fun _ => true) cs = true := by
-  match cs with
-  | [] => rfl
-  | c :: r => simp only [allNList, allN_true c, allNList_true r, Bool.and_self]
-end
-
-/-- the tree `afterBlocks` hands to the sourcepos pass -/
-def joined (cfg : DocCfg) (t : Node) : Node := if cfg.hasJoin = true then joinNode t else t
-
-theorem rmap_joined (cfg : DocCfg) (f : Nat → Nat) (nr : Bool) (t : Node) :
-    rmap f nr (joined cfg t) = joined cfg (rmap f nr t) := by
-  unfold joined
-  split
-  · exact rmap_joinNode f nr t
-  · rfl
-
-theorem afterBlocks_sp (cfg : DocCfg) (hsp : cfg.sourcepos = true) (src : List Char) (root : Block.BNode)
-    (refs : Refs.RefMap) :
-    afterBlocks cfg src root refs =
-      match spliceNode (cfg.inlineCfg refs) root with
-      | .error e => .error e
-      | .ok t => .ok (spPure src (joined cfg t)) := by
-  unfold afterBlocks
-  cases spliceNode (cfg.inlineCfg refs) root with
-  | error e => rfl
-  | ok t => simp only [hsp, if_true, sourceposNode_eq, joined]
-
-/-- the core chain behind the block pass, sourcepos on, on two block roots with the SAME children -/
-theorem afterBlocks_same_children (x : Bool) (cfg : DocCfg) (hsp : cfg.sourcepos = true) (s₁ s₂ : List Char)
-    (q : Nat × Nat → Bool) (hq : ∀ r, q r = true → posAttr s₂ r = posAttr s₁ r)
-    (r₁ r₂ : Option (Nat × Nat)) (cs : List Block.BNode) (refs : Refs.RefMap)
-    (hall : ∀ t, afterBlocks cfg s₁ ⟨.root, r₁, cs⟩ refs = .ok t → allN (rendered q) t = true) :
-    renderOf x cfg (afterBlocks cfg s₂ ⟨.root, r₂, cs⟩ refs) =
-      renderOf x cfg (afterBlocks cfg s₁ ⟨.root, r₁, cs⟩ refs) := by
-  rw [afterBlocks_sp cfg hsp, afterBlocks_sp cfg hsp] at *
-  simp only [spliceNode] at *
-  cases hs : spliceList (cfg.inlineCfg refs) cs with
-  | error e => rfl
-  | ok cs' =>
-    simp only [hs] at hall
-    have hall' := hall _ rfl
-    rw [allN_spPure _ (rendered_attrs q)] at hall'
-    have hT : rmap id true (joined cfg ⟨.blk .root, r₂, [], cs'⟩) =
-        rmap id true (joined cfg ⟨.blk .root, r₁, [], cs'⟩) := by
-      rw [rmap_joined, rmap_joined]
-      simp [rmap, rangeOf, Kind.rendersAttrs]
-    have := final_stage x cfg s₁ s₂ id q (fun r h => hq r h) _ _ hT hall'
-    rw [sourceposNode_eq, sourceposNode_eq] at this
-    exact this
-
-/-- two sources whose block passes agree up to the root's range render alike WITH `data-sourcepos`,
-    when the ranges of the attribute-rendering nodes have the same positions in both -/
-theorem renderDoc_of_blocks_eq_sp (x : Bool) (cfg : DocCfg) (s₁ s₂ : List Char) (hsp : cfg.sourcepos = true)
-    (h : BRes Eq (Block.parseBlocks cfg.blockCfg s₁) (Block.parseBlocks cfg.blockCfg s₂))
-    (q : Nat × Nat → Bool) (hq : ∀ r, q r = true → posAttr s₂ r = posAttr s₁ r)
-    (hall : ∀ t, parseDoc cfg s₁ = .ok t → allN (rendered q) t = true) :
-    renderDoc x cfg s₂ = renderDoc x cfg s₁ := by
-  rcases h with ⟨a, b, h1, h2, hk, hc, hr⟩ | ⟨e, h1, h2⟩
-  · obtain ⟨hroot, _⟩ := Block.parseBlocks_wf h1
-    obtain ⟨⟨k₁, r₁, c₁⟩, refs₁⟩ := a
-    obtain ⟨⟨k₂, r₂, c₂⟩, refs₂⟩ := b
-    simp only at hk hc hr hroot
-    subst hk hr hroot
-    have := Block.LE.NRelL.eq hc; subst this
-    rw [renderDoc_eq_renderOf, renderDoc_eq_renderOf]
-    unfold parseDoc at hall ⊢
-    rw [h1] at hall
-    rw [h1, h2]
-    exact afterBlocks_same_children x cfg hsp s₁ s₂ q hq r₁ r₂ c₁ refs₁ hall
-  · unfold renderDoc parseDoc
-    rw [h1, h2]
 
 /-! # Part 2: LF ↦ CR and the final newline -/
 
@@ -168,8 +78,6 @@ theorem doc_cr_invariant_all (x : Bool) (cfg : DocCfg) (src : List Char) (hcr : 
   | false => exact doc_cr_invariant_full x cfg src hsp hcr
   | true => exact doc_cr_invariant_sp x cfg src hsp hcr
 
-/-- the range lies inside the text: it starts at one of its bytes and ends at or before its end -/
-def insideB (src : List Char) (r : Nat × Nat) : Bool := decide (C10SP.Inside src r)
 
 /-- **C10 with sourcepos, final newline**: if every node of the tree of `src` that renders its
     attributes (everything but `Root`, `Text`, `TextSpecial`, `Softbreak`, `Hardbreak`) has its range
@@ -263,287 +171,15 @@ example : (parseDoc noParaCfg "a".toList).toOption.map spValues =
   decide +kernel
 
 /-
-  OPEN (final newline): the hypothesis `hin` always holds — every node of `parseDoc cfg src` other than
-  `Root`, `Text`, `TextSpecial`, `Softbreak`, `Hardbreak` has a range `(a, b)` with `a < |src|` and
-  `b ≤ |src|`.  Missing lemmas:
-    (a) block nodes: `a < b ≤ |src|`.  `b ≤ |src|` is `doc_block_ranges` (Props/C05Doc.lean, under the
-        `i32` hypothesis `4·|src| + 8 < 2³¹`) or `Block.LX.parseBlocks_in_lines` (no size hypothesis);
-        NON-EMPTINESS `a < b` (every `get_map(start_line, _)` is called on a line that is not empty:
-        `tokLoop` skips empty lines, list items / quotes start at their marker) is proved nowhere yet;
-    (b) inline nodes `CodeInline`, `Em`, `Strong`, `Strikethrough`, `Link`, `Image`, `Autolink`: the OPEN
-        `doc_inline_ranges` of Props/C05Doc.lean (`Lemmas/C05Inline*.lean`, in progress) plus non-emptiness.
+  The hypothesis `hin` is discharged in part 4 (`doc_final_newline_invariant_sp_full`) for documents in which
+  no tab is split: block nodes by `Block.parseBlocks_anchored` (non-empty ranges starting at a byte of their
+  own; every configuration), inline nodes by the exact inline simulation, `b ≤ |src|` by `doc_ranges_ok`.
   It is NOT true of `Softbreak` / `Hardbreak` in configurations without the paragraph rule (example (3)),
-  which is why the hypothesis is restricted to the values that render attributes.
+  which is why it is restricted to the values that render attributes.
 -/
 
-/-! # Part 3: LF ↦ CR LF -/
 
-/-- where LF ↦ CR LF moves the byte at offset `a` of a CR-free text -/
-def shiftOf (src : List Char) (a : Nat) : Nat := a + C10SP.lfBelow src a
-
-/-- the start of the range does not point at a line feed, and the end is not 0 -/
-def anchoredB (src : List Char) (r : Nat × Nat) : Bool := decide (C10SP.Anchored src r)
-
-theorem posAttr_crlf (src : List Char) (hcr : '\r' ∉ src) (r : Nat × Nat) (h : anchoredB src r = true) :
-    posAttr (lfToCrlf src) (shiftOf src r.1, shiftOf src r.2) = posAttr src r := by
-  have ha : C10SP.Anchored src r := by simpa [anchoredB] using h
-  have h1 := C10SP.getPosition_crlf_start src hcr r.1 ha.1
-  have h2 := C10SP.getPosition_crlf_end src hcr r.2 ha.2
-  rw [C10SP.getPosition_run, C10SP.getPosition_run] at h1 h2
-  simp only [Except.ok.injEq] at h1 h2
-  simp only [posAttr, shiftOf, h1, h2]
-
-/-- what is needed of ONE pair of inline runs: for the same text under the per-line tables of the LF and
-    of the CR LF document, the nodes that render attributes have ranges moved by `f`, all else equal -/
-def InlineExact (icfg : Inline.Cfg) (f : Nat → Nat) (c : List Char) (m₁ m₂ : InlineOps.Srcmap) : Prop :=
-  ∀ ns₁ ns₂, Inline.parseInline icfg c m₁ = .ok ns₁ → Inline.parseInline icfg c m₂ = .ok ns₂ →
-    rmapList id true (ofInlineList ns₂) = rmapList f true (ofInlineList ns₁)
-
-mutual
-/-- `P` at every pair of `InlineRoot` placeholders the splice walk visits in two block trees of the
-    same shape -/
-def PlN2 (P : List Char → InlineOps.Srcmap → InlineOps.Srcmap → Prop) : Block.BNode → Block.BNode → Prop
-  | ⟨_, _, c₁⟩, ⟨_, _, c₂⟩ => PlL2 P c₁ c₂
-def PlL2 (P : List Char → InlineOps.Srcmap → InlineOps.Srcmap → Prop) : List Block.BNode → List Block.BNode → Prop
-  | x :: xs, y :: ys =>
-    (match x.kind, y.kind with
-     | .inlineRoot c m₁, .inlineRoot _ m₂ => P c m₁ m₂
-     | _, _ => PlN2 P x y) ∧ PlL2 P xs ys
-  | _, _ => True
-end
-
-theorem rangeOf_rel {ρsrc : List Char} {k : Kind} {r₁ r₂ : Option (Nat × Nat)}
-    (h : RgRel (C10SP.crlfRel ρsrc) r₁ r₂) :
-    rangeOf id true k r₂ = rangeOf (shiftOf ρsrc) true k r₁ := by
-  unfold rangeOf
-  split
-  · rfl
-  · match r₁, r₂, h with
-    | none, none, _ => rfl
-    | some x, some y, h =>
-      obtain ⟨h1, h2⟩ := h
-      unfold C10SP.crlfRel at h1 h2
-      simp [mapRange, shiftOf, h1, h2]
-
-mutual
-/-- the splice walk on two block trees related by the EXACT offset relation -/
-theorem spliceNode_exact {icfg : Inline.Cfg} {src : List Char} : ∀ (b₁ b₂ : Block.BNode) (t₁ t₂ : Node),
-    NRel (C10SP.crlfRel src) b₁ b₂ → (∀ c m, b₁.kind ≠ .inlineRoot c m) →
-    PlN2 (InlineExact icfg (shiftOf src)) b₁ b₂ →
-    spliceNode icfg b₁ = .ok t₁ → spliceNode icfg b₂ = .ok t₂ →
-    rmap id true t₂ = rmap (shiftOf src) true t₁
-  | ⟨k₁, r₁, c₁⟩, ⟨k₂, r₂, c₂⟩, t₁, t₂, hn, hk, hp, h₁, h₂ => by
-    simp only [NRel] at hn
-    simp only [PlN2] at hp
-    have hkk : k₂ = k₁ := hn.1.eq_of_not_inline hk
-    subst hkk
-    simp only [spliceNode] at h₁ h₂
-    split at h₁
-    · cases h₁
-    · rename_i o₁ ho₁
-      split at h₂
-      · cases h₂
-      · rename_i o₂ ho₂
-        cases h₁; cases h₂
-        simp only [rmap, rangeOf_rel hn.2.1, spliceList_exact c₁ c₂ o₁ o₂ hn.2.2 hp ho₁ ho₂]
-theorem spliceList_exact {icfg : Inline.Cfg} {src : List Char} : ∀ (c₁ c₂ : List Block.BNode) (o₁ o₂ : List Node),
-    NRelL (C10SP.crlfRel src) c₁ c₂ → PlL2 (InlineExact icfg (shiftOf src)) c₁ c₂ →
-    spliceList icfg c₁ = .ok o₁ → spliceList icfg c₂ = .ok o₂ →
-    rmapList id true o₂ = rmapList (shiftOf src) true o₁
-  | [], [], o₁, o₂, _, _, h₁, h₂ => by
-    simp only [spliceList, Except.ok.injEq] at h₁ h₂
-    subst h₁ h₂; rfl
-  | [], _ :: _, _, _, hn, _, _, _ => by simp only [NRelL] at hn
-  | _ :: _, [], _, _, hn, _, _, _ => by simp only [NRelL] at hn
-  | x :: xs, y :: ys, o₁, o₂, hn, hp, h₁, h₂ => by
-    obtain ⟨hxy, hrest⟩ := hn.cons_inv
-    have hk := hxy.kind
-    simp only [PlL2] at hp
-    obtain ⟨hp1, hp2⟩ := hp
-    simp only [spliceList] at h₁
-    split at h₁
-    · -- an `InlineRoot` on side 1, hence on side 2
-      rename_i content m₁ hk₁
-      have hy : ∃ m₂, y.kind = .inlineRoot content m₂ := by
-        rw [hk₁] at hk
-        rcases hk with hk | ⟨c, a, b, e1, e2, _⟩
-        · exact ⟨m₁, hk.symm⟩
-        · cases e1; exact ⟨b, e2⟩
-      obtain ⟨m₂, hy⟩ := hy
-      rw [hk₁, hy] at hp1
-      simp only at hp1
-      simp only [spliceList, hy] at h₂
-      split at h₁
-      · cases h₁
-      · rename_i ns₁ hns₁
-        split at h₁
-        · cases h₁
-        · rename_i q₁ hq₁
-          cases h₁
-          split at h₂
-          · cases h₂
-          · rename_i ns₂ hns₂
-            split at h₂
-            · cases h₂
-            · rename_i q₂ hq₂
-              cases h₂
-              have e1 := hp1 ns₁ ns₂ hns₁ hns₂
-              have e2 := spliceList_exact xs ys q₁ q₂ hrest hp2 hq₁ hq₂
-              simp only [rmapList_eq_map, List.map_append] at e1 e2 ⊢
-              rw [e1, e2]
-    · -- anything else: the same kind on side 2
-      rename_i hne₁
-      have hy : y.kind = x.kind := hk.eq_of_not_inline (fun c m e => hne₁ c m e)
-      have hp1' : PlN2 (InlineExact icfg (shiftOf src)) x y := by
-        revert hp1
-        split
-        · rename_i e1 _
-          exact absurd e1 (hne₁ _ _)
-        · exact id
-      simp only [spliceList] at h₂
-      split at h₂
-      · rename_i c m hyk
-        rw [hy] at hyk
-        exact absurd hyk (hne₁ c m)
-      · split at h₁
-        · cases h₁
-        · rename_i t₁ ht₁
-          split at h₁
-          · cases h₁
-          · rename_i q₁ hq₁
-            cases h₁
-            split at h₂
-            · cases h₂
-            · rename_i t₂ ht₂
-              split at h₂
-              · cases h₂
-              · rename_i q₂ hq₂
-                cases h₂
-                simp only [rmapList, spliceNode_exact x y t₁ t₂ hxy (fun c m e => hne₁ c m e) hp1' ht₁ ht₂,
-                  spliceList_exact xs ys q₁ q₂ hrest hp2 hq₁ hq₂]
-end
-
-mutual
-theorem nrel_mono {ρ ρ' : Nat → Nat → Prop} (h : ∀ a b, ρ a b → ρ' a b) :
-    ∀ (n₁ n₂ : Block.BNode), NRel ρ n₁ n₂ → NRel ρ' n₁ n₂
-  | ⟨k₁, r₁, c₁⟩, ⟨k₂, r₂, c₂⟩, hn => by
-    simp only [NRel] at hn ⊢
-    refine ⟨?_, ?_, nrelL_mono h c₁ c₂ hn.2.2⟩
-    · rcases hn.1 with e | ⟨c, m₁, m₂, e1, e2, hm⟩
-      · exact Or.inl e
-      · refine Or.inr ⟨c, m₁, m₂, e1, e2, ?_⟩
-        clear e1 e2
-        induction m₁ generalizing m₂ with
-        | nil => cases m₂ <;> simp_all [Block.LE.MRel]
-        | cons p r ih =>
-          cases m₂ with
-          | nil => simp [Block.LE.MRel] at hm
-          | cons p' r' => exact ⟨hm.1, h _ _ hm.2.1, ih r' hm.2.2⟩
-    · match r₁, r₂, hn.2.1 with
-      | none, none, _ => trivial
-      | some x, some y, hr => exact ⟨h _ _ hr.1, h _ _ hr.2⟩
-theorem nrelL_mono {ρ ρ' : Nat → Nat → Prop} (h : ∀ a b, ρ a b → ρ' a b) :
-    ∀ (a b : List Block.BNode), NRelL ρ a b → NRelL ρ' a b
-  | [], [], _ => by simp only [NRelL]
-  | [], _ :: _, hn => by simp only [NRelL] at hn
-  | _ :: _, [], hn => by simp only [NRelL] at hn
-  | x :: xs, y :: ys, hn => by
-    obtain ⟨h1, h2⟩ := hn.cons_inv
-    exact Block.LE.NRelL.cons (nrel_mono h x y h1) (nrelL_mono h xs ys h2)
-end
-
-/-- **LF ↦ CR LF with sourcepos, from the exact block relation.** -/
-theorem doc_crlf_sp_of_blocks (x : Bool) (cfg : DocCfg) (src : List Char) (hsp : cfg.sourcepos = true)
-    (hcr : '\r' ∉ src)
-    (hb : BRes (C10SP.crlfRel src) (Block.parseBlocks cfg.blockCfg src) (Block.parseBlocks cfg.blockCfg (lfToCrlf src)))
-    (hinl : ∀ e, parseDoc cfg src ≠ .error (.inline e))
-    (hix : ∀ root₁ refs₁ root₂ refs₂, Block.parseBlocks cfg.blockCfg src = .ok (root₁, refs₁) →
-      Block.parseBlocks cfg.blockCfg (lfToCrlf src) = .ok (root₂, refs₂) →
-      PlN2 (InlineExact (cfg.inlineCfg refs₁) (shiftOf src)) root₁ root₂)
-    (hanch : ∀ t, parseDoc cfg src = .ok t → allN (rendered (anchoredB src)) t = true) :
-    renderDoc x cfg (lfToCrlf src) = renderDoc x cfg src := by
-  rcases hb with ⟨a, b, h1, h2, hk, hc, hr⟩ | ⟨e, h1, h2⟩
-  · obtain ⟨hroot, _⟩ := Block.parseBlocks_wf h1
-    have hix' := hix _ _ _ _ h1 h2
-    obtain ⟨⟨k₁, r₁, c₁⟩, refs₁⟩ := a
-    obtain ⟨⟨k₂, r₂, c₂⟩, refs₂⟩ := b
-    simp only at hk hc hr hroot hix'
-    subst hk hr hroot
-    simp only [PlN2] at hix'
-    rw [renderDoc_eq_renderOf, renderDoc_eq_renderOf]
-    unfold parseDoc at hinl hanch ⊢
-    rw [h1] at hinl hanch
-    rw [h1, h2]
-    simp only at hinl hanch ⊢
-    rw [afterBlocks_sp cfg hsp] at hinl hanch ⊢
-    rw [afterBlocks_sp cfg hsp]
-    simp only [spliceNode] at hinl hanch ⊢
-    cases hs₁ : spliceList (cfg.inlineCfg refs₁) c₁ with
-    | error e =>
-      exfalso
-      obtain ⟨e', rfl⟩ := spliceList_error c₁ e hs₁
-      rw [hs₁] at hinl
-      exact hinl e' rfl
-    | ok u₁ =>
-      obtain ⟨u₂, hs₂⟩ := spliceList_ok_transfer c₁ c₂ u₁
-        (nrelL_mono (fun a b (h : C10SP.crlfRel src a b) => by unfold C10SP.crlfRel at h; omega) c₁ c₂ hc) hs₁
-      simp only [hs₁] at hanch
-      simp only [hs₂]
-      have hall := hanch _ rfl
-      rw [allN_spPure _ (rendered_attrs _)] at hall
-      have hu := spliceList_exact (icfg := cfg.inlineCfg refs₁) (src := src) c₁ c₂ u₁ u₂ hc hix' hs₁ hs₂
-      have hT : rmap id true (joined cfg ⟨.blk .root, r₂, [], u₂⟩) =
-          rmap (shiftOf src) true (joined cfg ⟨.blk .root, r₁, [], u₁⟩) := by
-        rw [rmap_joined, rmap_joined]
-        simp [rmap, rangeOf, Kind.rendersAttrs, hu]
-      have := final_stage x cfg src (lfToCrlf src) (shiftOf src) (anchoredB src)
-        (fun r h => posAttr_crlf src hcr r h) _ _ hT hall
-      rw [sourceposNode_eq, sourceposNode_eq] at this
-      exact this
-  · unfold renderDoc parseDoc
-    rw [h1, h2]
-
-
-/-! ### `InlineExact` for inline content without attribute-rendering nodes -/
-
-/-- no node of the tree renders attributes (`Text`, `TextSpecial`, breaks only) -/
-def plainB (n : Node) : Bool := !n.kind.rendersAttrs
-
-mutual
-theorem rmap_plain (f : Nat → Nat) : ∀ t : Node, allN plainB t = true → rmap f true t = eraseRanges t
-  | ⟨k, r, a, cs⟩, h => by
-    simp only [allN, Bool.and_eq_true, plainB, Bool.not_eq_true'] at h
-    simp only [rmap, eraseRanges, rangeOf, h.1, Bool.not_false, Bool.and_self, if_true,
-      rmapList_plain f cs h.2]
-theorem rmapList_plain (f : Nat → Nat) : ∀ l : List Node, allNList plainB l = true →
-    rmapList f true l = eraseRangesList l
-  | [], _ => rfl
-  | c :: cs, h => by
-    simp only [allNList, Bool.and_eq_true] at h
-    simp only [rmapList, eraseRangesList, rmap_plain f c h.1, rmapList_plain f cs h.2]
-end
-
-mutual
-theorem allN_plain_erase : ∀ t : Node, allN plainB (eraseRanges t) = allN plainB t
-  | ⟨k, r, a, cs⟩ => by simp only [eraseRanges, allN, plainB, allNList_plain_erase cs]
-theorem allNList_plain_erase : ∀ l : List Node, allNList plainB (eraseRangesList l) = allNList plainB l
-  | [] => rfl
-  | c :: cs => by simp only [eraseRangesList, allNList, allN_plain_erase c, allNList_plain_erase cs]
-end
-
-/-- an inline run that produces `Text` / `TextSpecial` / break nodes only is `InlineExact` for ANY pair
-    of tables and any `f` (`inline_range_free`: the two runs differ in ranges only, and none of these
-    ranges is rendered) — `hix` holds at every paragraph without emphasis, links, images, code spans
-    and autolinks -/
-theorem inlineExact_of_plain (icfg : Inline.Cfg) (f : Nat → Nat) (c : List Char) (m₁ m₂ : InlineOps.Srcmap)
-    (hplain : ∀ ns₁, Inline.parseInline icfg c m₁ = .ok ns₁ → allNList plainB (ofInlineList ns₁) = true) :
-    InlineExact icfg f c m₁ m₂ := by
-  intro ns₁ ns₂ h₁ h₂
-  have he := inline_range_free icfg c m₁ m₂ ns₁ ns₂ h₁ h₂
-  have hp₁ := hplain ns₁ h₁
-  have hp₂ : allNList plainB (ofInlineList ns₂) = true := by
-    rw [← allNList_plain_erase, ← he, allNList_plain_erase]; exact hp₁
-  rw [rmapList_plain id _ hp₂, rmapList_plain f _ hp₁, he]
+/-! # Part 3: LF ↦ CR LF (the lemmas are in `Lemmas/C10SourceposDoc.lean`) -/
 
 /-- **C10 with sourcepos, LF ↦ CR LF (partial)**: the HTML with its `data-sourcepos` attributes does not
     change, PROVIDED (`hinl`, as in `doc_crlf_invariant`) the inline pass does not panic on `src`,
@@ -631,12 +267,19 @@ theorem plL2B_sound {p : List Char → InlineOps.Srcmap → InlineOps.Srcmap →
     simp only [PlL2]
     refine ⟨?_, plL2B_sound hp xs ys h.2⟩
     have h1 := h.1
-    revert h1
-    split
-    · rename_i e1 e2
-      intro h1
-      exact hp _ _ _ h1
-    · intro h1
+    cases hx : x.kind with
+    | inlineRoot c m₁ =>
+      cases hy : y.kind with
+      | inlineRoot c' m₂ =>
+        rw [hx, hy] at h1
+        exact hp _ _ _ h1
+      | _ =>
+        rw [hx, hy] at h1
+        simp only at h1 ⊢
+        exact plN2B_sound hp x y h1
+    | _ =>
+      rw [hx] at h1
+      simp only at h1 ⊢
       exact plN2B_sound hp x y h1
 end
 
@@ -673,29 +316,124 @@ example : (parseDoc (exCfg true 100) exDoc2).toOption.map (fun t => (spValues t)
       (.ul, "4:1-5:8".toList), (.li, "4:1-5:8".toList), (.L, "5:3-5:8".toList)] := by decide +kernel
 
 /-
-  OPEN (LF ↦ CR LF with sourcepos) — what separates `doc_crlf_invariant_sp_partial` from
-      theorem doc_crlf_invariant_sp (x cfg src) (hsp : cfg.sourcepos = true) (hcr : '\r' ∉ src) :
-          renderDoc x cfg (lfToCrlf src) = renderDoc x cfg src
+  `hix` and `hanch` are discharged in part 4 (`doc_crlf_invariant_sp_full`) for documents in which no tab is
+  split; `hix` is FALSE for arbitrary tables and for break nodes (part 2, example (2), second half:
+  `Hardbreak (1,4)` in both texts under the one-entry table), hence the restriction of `rmap … true` to the
+  values that render attributes.  `hinl` remains (as in Props/C10Doc.lean).
+-/
 
-   1. `hix` — EXACTNESS of the inline parser in its per-line table:
-          theorem parseInline_exact (icfg) (src content m₁ m₂) (hm : MRel (C10SP.crlfRel src) m₁ m₂)
-              (htab : m₁ is a table `get_lines` (or the ATX rule) made for `content` out of lines of `src`) :
-              InlineExact icfg (shiftOf src) content m₁ m₂
-      `Lemmas/C10DocInline.lean` proves the ORDER version only (`inline_ok_transfer_rel`: ranges `≤`).
-      The exact version is a statement about every place where the inline parser computes with SOURCE
-      offsets: `get_map` (a position is translated by the entry of ITS line: fine as long as the position
-      lies inside the bytes that entry describes — false for the virtual spaces of a split tab and for
-      the break behind the last line of the no-paragraph fallback, both of which only occur in `Text` /
-      break nodes), `end - marker_len` / `start + marker_len` of the delimiter matching (the marker run
-      lies inside one line), `map_end - count` of `trailing_text_pop`, the hull of `trailing_text_push`.
-      It is FALSE for arbitrary tables and FALSE for break nodes (part 2, example (2), second half: `Hardbreak (1,4)`
-      in both texts under the one-entry table), hence the restriction of `rmap … true` to the values
-      that render attributes.  It contains the OPEN `doc_inline_ranges` of Props/C05Doc.lean.
-   2. `hanch` — no block node and no `CodeInline` / `Em` / … / `Autolink` node starts at a line feed or
-      ends at offset 0: non-emptiness of ranges (`a < b`, first byte a byte of the node).  For block
-      nodes: every `get_map(start_line, _)` is called with a non-empty `start_line` (as OPEN (a) of
-      part 2); `Block.LX.parseBlocks_in_lines` already gives "inside a line, ends included".
-   3. `hinl` — as in Props/C10Doc.lean (equal inline PANICS on the two tables).
+
+/-! # Part 4: the full theorems (documents in which no tab is split)
+
+  The hypotheses `hin`, `hanch`, `hix` of parts 2 and 3 discharged:
+   * block nodes — `Block.parseBlocks_anchored` (`Lemmas/C10SpFullBlock*.lean`, every configuration, every
+     source): every ranged node of the block tree has `a < b` and a character other than LF / CR starts at
+     byte `a`; `Block.LX.Y.parseBlocks_crlf_strict`: the two block trees are related by `b = a + #LF before a`
+     at every range end and every table value, placeholders pairwise with related TABLES;
+   * tables — `doc_placeholder_segs` (`Lemmas/C10SpFullTables.lean`; C05Rest's `fa_Seg`): without split tab
+     every per-line table is segmented line by line, so every position of the inline text is translated
+     exactly (`tr_shift`) and a character other than LF to a byte that is not a line feed (`tr_onByte`);
+   * inline nodes — the exact inline simulation `InlineExactThm` (`Lemmas/C10SpFullInline*.lean`): under two
+     good tables with the same keys the ranges of `CodeInline` / `Em` / `Strong` / `Strikethrough` / `Link` /
+     `Image` / `Autolink` nodes are the translations of ONE stretch of the inline text that starts at a
+     character other than LF (`C10SP.SameSpan`);
+   * `a ≤ b ≤ |src|` at every node — `doc_ranges_ok` (Props/C05Rest.lean).
+  What remains: the size bound of the `i32` fields (`hsmall`), the paragraph rule (`hpara`; without it the
+  fallback tables are not `get_lines` tables), single-byte emphasis markers other than LF (`hmk`, as in
+  Props/C05Rest.lean), `NoSplitTab` (`hnv`; `'\t' ∉ src` suffices), and for CR LF the inline-no-panic
+  hypothesis `hinl` of Props/C10Doc.lean. -/
+
+/-- the exact inline simulation, for every inline configuration with single-byte non-LF emphasis markers -/
+theorem inlineExactThm (icfg : Inline.Cfg) (hmk : C05R.AsciiMarkers icfg.chain) : InlineExactThm icfg :=
+  C10SP.parseInline_exact' icfg hmk
+
+/-- **every attribute-rendering node of the parsed tree** — every block node but the root, `CodeInline`,
+    `Em` / `Strong` / `Strikethrough`, `Link`, `Image`, `Autolink` — **starts at a byte of the document
+    that is not a line feed** (in a document in which no tab is split) -/
+theorem doc_starts_on_bytes (cfg : DocCfg) (src : List Char) (hsp : cfg.sourcepos = true)
+    (hsmall : 4 * Lines.byteLen src + 8 < 2147483648) (hpara : cfg.hasPara = true)
+    (hmk : C05R.AsciiMarkers cfg.inlineChain) (hnv : NoSplitTab cfg src)
+    {t : Node} (h : parseDoc cfg src = .ok t) :
+    Every (fun n => n.kind.rendersAttrs = true → ∀ a b, n.range = some (a, b) → OnByteLf src a) t :=
+  doc_anchored cfg src hsp (fun _ => inlineExactThm _ hmk) hsmall hpara hnv h
+
+/-- **C10 with sourcepos, final newline, full**: in a document in which no tab is split a final LF does
+    not change the HTML with its `data-sourcepos` attributes.  No hypothesis about ranges is left. -/
+theorem doc_final_newline_invariant_sp_full (x : Bool) (cfg : DocCfg) (src : List Char)
+    (hsp : cfg.sourcepos = true) (hlast : src.getLast? ≠ some '\n' ∧ src.getLast? ≠ some '\r')
+    (hsmall : 4 * Lines.byteLen src + 8 < 2147483648) (hpara : cfg.hasPara = true)
+    (hmk : C05R.AsciiMarkers cfg.inlineChain) (hnv : NoSplitTab cfg src) :
+    renderDoc x cfg (src ++ ['\n']) = renderDoc x cfg src :=
+  doc_final_newline_sp_of_inline x cfg src hsp hlast (fun _ => inlineExactThm _ hmk) hsmall hpara hmk hnv
+
+/-- **C10 with sourcepos, LF ↦ CR LF, full**: in a CR-free document in which no tab is split, LF ↦ CR LF
+    does not change the HTML with its `data-sourcepos` attributes — provided (`hinl`, as without the
+    plugin) the inline pass does not panic on `src`.  No hypothesis about ranges or tables is left. -/
+theorem doc_crlf_invariant_sp_full (x : Bool) (cfg : DocCfg) (src : List Char)
+    (hsp : cfg.sourcepos = true) (hcr : '\r' ∉ src)
+    (hinl : ∀ e, parseDoc cfg src ≠ .error (.inline e))
+    (hsmall : 4 * Lines.byteLen src + 8 < 2147483648) (hpara : cfg.hasPara = true)
+    (hmk : C05R.AsciiMarkers cfg.inlineChain) (hnv : NoSplitTab cfg src) :
+    renderDoc x cfg (lfToCrlf src) = renderDoc x cfg src :=
+  doc_crlf_sp_of_inline x cfg src hsp hcr hinl (fun _ => inlineExactThm _ hmk) hsmall hpara hmk hnv
+
+/-- … for tab-free documents -/
+theorem doc_final_newline_invariant_sp_tabFree (x : Bool) (cfg : DocCfg) (src : List Char)
+    (hsp : cfg.sourcepos = true) (hlast : src.getLast? ≠ some '\n' ∧ src.getLast? ≠ some '\r')
+    (hsmall : 4 * Lines.byteLen src + 8 < 2147483648) (hpara : cfg.hasPara = true)
+    (hmk : C05R.AsciiMarkers cfg.inlineChain) (htab : '\t' ∉ src) :
+    renderDoc x cfg (src ++ ['\n']) = renderDoc x cfg src :=
+  doc_final_newline_invariant_sp_full x cfg src hsp hlast hsmall hpara hmk
+    (noSplitTab_of_tabFree cfg src hsmall hpara htab)
+
+theorem doc_crlf_invariant_sp_tabFree (x : Bool) (cfg : DocCfg) (src : List Char)
+    (hsp : cfg.sourcepos = true) (hcr : '\r' ∉ src)
+    (hinl : ∀ e, parseDoc cfg src ≠ .error (.inline e))
+    (hsmall : 4 * Lines.byteLen src + 8 < 2147483648) (hpara : cfg.hasPara = true)
+    (hmk : C05R.AsciiMarkers cfg.inlineChain) (htab : '\t' ∉ src) :
+    renderDoc x cfg (lfToCrlf src) = renderDoc x cfg src :=
+  doc_crlf_invariant_sp_full x cfg src hsp hcr hinl hsmall hpara hmk
+    (noSplitTab_of_tabFree cfg src hsmall hpara htab)
+
+/-! ## non-vacuity -/
+
+/-- the hypotheses of the full theorems on `exDoc2` (emphasis over a line break, a code span, a link on
+    the continuation line of a list item): nothing about ranges has to be evaluated -/
+theorem exDoc2_full_hyps :
+    4 * Lines.byteLen exDoc2 + 8 < 2147483648 ∧ (exCfg true 100).hasPara = true ∧
+    C05R.AsciiMarkers (exCfg true 100).inlineChain ∧ '\t' ∉ exDoc2 ∧
+    (exDoc2.getLast? ≠ some '\n' ∧ exDoc2.getLast? ≠ some '\r') :=
+  ⟨by decide, by decide, exCfg_asciiMarkers true 100, by decide, by decide⟩
+
+example (x : Bool) : renderDoc x (exCfg true 100) (lfToCrlf exDoc2) = renderDoc x (exCfg true 100) exDoc2 :=
+  doc_crlf_invariant_sp_tabFree x _ _ rfl exDoc2_hyps.1 exDoc2_hyps.2.1 exDoc2_full_hyps.1
+    exDoc2_full_hyps.2.1 exDoc2_full_hyps.2.2.1 exDoc2_full_hyps.2.2.2.1
+
+example (x : Bool) : renderDoc x (exCfg true 100) (exDoc2 ++ ['\n']) = renderDoc x (exCfg true 100) exDoc2 :=
+  doc_final_newline_invariant_sp_tabFree x _ _ rfl exDoc2_full_hyps.2.2.2.2 exDoc2_full_hyps.1
+    exDoc2_full_hyps.2.1 exDoc2_full_hyps.2.2.1 exDoc2_full_hyps.2.2.2.1
+
+/-- a document with a tab that is NOT split (inside a line): `NoSplitTab` by evaluation of the block pass -/
+def exDoc3 : List Char := "a\t*b\nc*".toList
+
+example (x : Bool) : renderDoc x (exCfg true 100) (exDoc3 ++ ['\n']) = renderDoc x (exCfg true 100) exDoc3 :=
+  doc_final_newline_invariant_sp_full x _ _ rfl (by decide) (by decide) (by decide) (exCfg_asciiMarkers true 100)
+    (noSplitTab_of_check _ _ (by decide +kernel))
+
+/-
+  OPEN (what separates the full theorems from hypothesis-free statements):
+   1. `hnv : NoSplitTab` — a tab that straddles the content column of a container is split by `get_lines`
+      into virtual spaces without bytes of their own (after `fix:` fc6af68 positions inside them are clamped
+      to the next table entry).  The block half (`parseBlocks_anchored`, `parseBlocks_crlf_strict`) holds
+      with split tabs; missing are the segment structure of such a table (`fa_Seg` with a virtual entry:
+      Props/C05Inline.lean OPEN A/B) and `Inline.MapOK` for it (the exact inline simulation assumes both
+      tables `MapOK`).  On samples the HTML is invariant with split tabs too (`"- a\n\n \t*b*"`, part 0).
+   2. `hinl` (CR LF only) — equal inline PANICS under the two tables, as in Props/C10Doc.lean.
+   3. `hpara` — without the paragraph rule the fallback of `BlockParser::tokenize` makes one-entry tables
+      whose content ends with a LF the table does not know (Props/C05Doc.lean finding); C05Rest's table
+      theorems assume the rule.  The HTML is still invariant on samples (part 2, examples (2), (3)).
+   4. `hsmall`, `hmk` — the `i32` fields of the block state; single-byte emphasis markers (with a multi-byte
+      marker the inline model panics as soon as the rule fires, Props/C05Rest.lean).
 -/
 
 end MdIt.Pipeline
